@@ -248,7 +248,11 @@ fn representable(n: u32, es: u32, x: &Dy) -> Option<u64> {
 /// tie-directed pair: operands whose exact result is (or is 1 ulp of an operand away from) a
 /// rounding threshold `v` of the n-bit format; op in {0:+,1:-,2:*,3:/}.  Falls back to `fallback`.
 pub fn tie_pair(n: u32, es: u32) -> BoxedStrategy<(u8, u64, u64)> {
-    (0u8..4, bits(n + 1), any::<u64>(), 0u8..3, pair(n, es)).prop_map(move |(op, vb, raw, delta, fallback)| {
+    tie_pair_ops(n, es, 0, 4)
+}
+/// same, operator drawn from op_lo..op_hi
+pub fn tie_pair_ops(n: u32, es: u32, op_lo: u8, op_hi: u8) -> BoxedStrategy<(u8, u64, u64)> {
+    (op_lo..op_hi, bits(n + 1), any::<u64>(), 0u8..3, pair(n, es)).prop_map(move |(op, vb, raw, delta, fallback)| {
         let m = mask(n);
         let vb = (vb | 1) & mask(n + 1);
         let v = match decode(n + 1, es, vb) {
